@@ -34,8 +34,20 @@ Extract(reg, ac, u) ==
          ELSE IF Cardinality(DOMAIN u) > 1 /\ ~ac THEN <<"bad", "">>
          ELSE <<"one", n>>
 
-ToRef(reg, n, x) == RAdd(RMul(x, reg.units[n].scale), reg.units[n].offset)
-FromRef(reg, n, x) == RDiv(RSub(x, reg.units[n].offset), reg.units[n].scale)
+\* logarithmic units: [log |-> TRUE, lb = base, lf = factor]:  Q_log = lf * log_lb(Q_lin / scale).  The model is exact
+\* on the lattice Q_lin = scale * lb^k (k integer), which is where it is evaluated; off the lattice it answers Irr.
+IsLog(reg, n) == "log" \in DOMAIN reg.units[n] /\ reg.units[n].log
+Irr == <<0, 0>>                                  \* not a rational the model can name
+LogKs == -6..6
+ToRef(reg, n, x) ==
+    IF IsLog(reg, n) THEN LET d == reg.units[n]  q == RDiv(x, d.lf) IN
+         IF RIsInt(q) /\ q[1] \in LogKs THEN RMul(d.scale, RPowInt(d.lb, q[1])) ELSE Irr
+    ELSE RAdd(RMul(x, reg.units[n].scale), reg.units[n].offset)
+FromRef(reg, n, x) ==
+    IF IsLog(reg, n) THEN LET d == reg.units[n]  r == RDiv(x, d.scale)
+                              ks == {k \in LogKs : RPowInt(d.lb, k) = r} IN
+         IF ks = {} THEN Irr ELSE RMul(d.lf, R(CHOOSE k \in ks : TRUE))
+    ELSE RDiv(RSub(x, reg.units[n].offset), reg.units[n].scale)
 
 \* NonMultiplicativeRegistry._convert (the offset unit is replaced by its reference container)
 ConvertNM(reg, ac, x, src, dst) ==
@@ -48,7 +60,11 @@ ConvertNM(reg, ac, x, src, dst) ==
     ELSE LET x1   == IF es[1] = "one" THEN ToRef(reg, es[2], x) ELSE x
              src1 == IF es[1] = "one" THEN reg.units[es[2]].ref ELSE src
          IN IF ed[1] = "one" /\ Deltas(reg, src1) # {} THEN DimErr
-            ELSE LET dst1 == IF ed[1] = "one" THEN reg.units[ed[2]].ref ELSE dst
+            ELSE LET dst1 == IF ed[1] = "one" THEN reg.units[ed[2]].ref ELSE dst IN
+                 \* the offset unit is *replaced* by its reference container (companions of a compound are dropped):
+                 \* in autoconvert mode a compound such as C * m therefore does not convert - it is refused
+                 IF DimDecl(reg, src1) # DimDecl(reg, dst1) THEN DimErr
+                 ELSE LET
                      x2   == RMul(x1, FactorAB(reg, src1, dst1))
                      x3   == IF ed[1] = "one" THEN FromRef(reg, ed[2], x2) ELSE x2
                  IN Ok(x3, dst)
@@ -57,7 +73,8 @@ ToRoot(reg, ac, q) == To(reg, ac, q, RootUnitsDecl(reg, q.u))
 
 \* declarative reading of a conversion between two single units of one dimension: through the
 \* reference unit by the defining affine maps; delta units by scale only
-DeclConvert1(reg, x, a, b) == FromRef(reg, b, RMul(ToRef(reg, a, x), FactorAB(reg, reg.units[a].ref, reg.units[b].ref)))
+RefOf(reg, n) == IF reg.units[n].base THEN Single(n, One) ELSE reg.units[n].ref
+DeclConvert1(reg, x, a, b) == FromRef(reg, b, RMul(ToRef(reg, a, x), FactorAB(reg, RefOf(reg, a), RefOf(reg, b))))
 
 DeltaName(reg, n) == CHOOSE d \in DOMAIN reg.units : reg.units[d].delta /\ reg.units[d].deltaOf = n
 HasCompatibleDelta(reg, q, unit) ==
